@@ -884,7 +884,10 @@ def g_tensordot(rng, n):
             continue
         npaxes = axes if isinstance(axes, int) else (axes[0]["l"], axes[1]["l"])
         kind = "valid" if np_accepts(np.tensordot, s1, s2, axes=npaxes) else "shape-mismatch"
-        yield case("sparse.tensordot", "tensordot", [a, b], [X0, X1], {"axes": axes}, kind)
+        kw = {"axes": axes}
+        if rng.random() < 0.35:
+            kw["return_type"] = {"cls": str(rng.choice(["COO", "GCXS", "ndarray"]))}
+        yield case("sparse.tensordot", "tensordot", [a, b], [X0, X1], kw, kind)
 
 
 EINSUM = ["ij,jk->ik", "ij,jk", "ii->i", "ii", "ij->ji", "ij->", "i,i->", "i,j->ij", "ijk,k->ij", "ij,ij->ij", "...j,j->...", "ij,kj->ik"]
@@ -1316,14 +1319,18 @@ def dot_probes(full):
                     continue
                 a = eye_arr(s1, f1, None if len(s1) < 2 else [0])
                 b = eye_arr(s2, f2, None if len(s2) < 2 else [0])
+                rts = [None]
                 if op == "sparse.tensordot":
                     if len(s1) > 2 or len(s2) > 2:
                         continue
-                    kw = {"axes": [{"l": [len(s1) - 1]}, {"l": [0]}]}
+                    kw0 = {"axes": [{"l": [len(s1) - 1]}, {"l": [0]}]}
+                    # every return_type: the sparse-result kernels (_dot_coo_ndarray_type_sparse, _dot_ndarray_coo_type_sparse and the
+                    # CSR/CSC ones) are reached only through return_type=COO/GCXS with a dense operand
+                    rts = [None, "COO", "GCXS", "ndarray"] if "dense" in (f1, f2) else [None, "ndarray"]
                 else:
-                    kw = {}
+                    kw0 = {}
                 npf = {"sparse.dot": np.dot, "sparse.matmul": np.matmul, "x@y": np.matmul, "sparse.tensordot": np.tensordot}[op]
-                npkw = {"axes": ([len(s1) - 1], [0])} if kw else {}
+                npkw = {"axes": ([len(s1) - 1], [0])} if kw0 else {}
                 kind = "valid" if np_accepts(npf, s1, s2, **npkw) else "shape-mismatch"
                 w1 = tuple(max(e, 2) for e in s1)
                 w2 = tuple(max(e, 2) for e in s2)
@@ -1332,7 +1339,10 @@ def dot_probes(full):
                 if len(w1) == 3 and len(w2) == 3:
                     w2 = (w1[0],) + w2[1:]
                     w2 = (w2[0], w1[-1], w2[2])
-                warm = {"op": op, "arrays": [eye_arr(w1, f1, None if len(s1) < 2 else [0]), eye_arr(w2, f2, None if len(s2) < 2 else [0])],
-                        "args": [X0, X1], "kwargs": kw}
-                yield case(op, "dot", [a, b], [X0, X1], kw, kind, probe=True, warm=warm, deadline=10.0, noretry=True,
-                           bucket=f"probe:{op}:{f1}:{f2}", hang_cap=1 if not full else 4, chunk=f"probe-{op}-{f1}-{f2}" if f2 == "dense" else f"probe-{f1}-{f2}")
+                for rt in rts:
+                    kw = dict(kw0, return_type={"cls": rt}) if rt is not None else kw0
+                    warm = {"op": op, "arrays": [eye_arr(w1, f1, None if len(s1) < 2 else [0]), eye_arr(w2, f2, None if len(s2) < 2 else [0])],
+                            "args": [X0, X1], "kwargs": kw}
+                    yield case(op, "dot", [a, b], [X0, X1], kw, kind, probe=True, warm=warm, deadline=10.0, noretry=True,
+                               bucket=f"probe:{op}:{f1}:{f2}:{rt}", hang_cap=1 if not full else 4,
+                               chunk=f"probe-{op}-{f1}-{f2}" if f2 == "dense" else f"probe-{f1}-{f2}")
